@@ -39,6 +39,21 @@ def session_lines(rng, kind, cfg_valid_dir, bad_dir, cfgA, nodesA, fi):
             else:
                 addr, t, data = gen_feedback(rng, m, cfgA, nodesA)
                 ls += [up(model.build_msg(addr, 0, t, data))]
+        if rng.random() < 0.35:
+            # a board (possibly a track output) drops off the bus during the session: the shutdown commands are for what is connected THEN
+            conn = [b for b in cfgA['boards'] if m.connected(b['id']) and m.addr[b['id']] != (0, 0, 0)]
+
+            def dep(a):
+                return 1 if a[1] == 0 else 2 if a[2] == 0 else 3
+            leaves = [b for b in conn if not any(o is not b and dep(m.addr[o['id']]) > dep(m.addr[b['id']]) and m.addr[o['id']][:dep(m.addr[b['id']])] == m.addr[b['id']][:dep(m.addr[b['id']])] for o in conn)]
+            if leaves:
+                tl = [b for b in leaves if cfggen.is_track_output(b)]
+                L = rng.choice(tl or leaves)
+                a = m.addr[L['id']]
+                parent = tuple(list(a[:dep(a) - 1]) + [0] * (3 - (dep(a) - 1)))
+                data = bytes([2, a[dep(a) - 1]]) + L['uid']
+                m.on_uplink(parent, C('MSG_NODE_LOST'), data)
+                ls += [f'bus delnode {a[0]}.{a[1]}.{a[2]}', up(model.build_msg(parent, 0, C('MSG_NODE_LOST'), data)), 'quiesce']
         # leave work pending: unanswered requests (held messages), unread queues
         if rng.random() < 0.5:
             ls += ['mark pending_node0', 'bus policy 19 never'] + [call('bidib_send_string_get', 0, 0, 0, 0, i, 0) for i in range(4)]
